@@ -56,7 +56,7 @@ func (c20) Budget(tier string) runner.Budget {
 	if tier == "thorough" {
 		return runner.Budget{Plans: 30000, PlansPerProc: 15, Wall: 14 * time.Minute}
 	}
-	return runner.Budget{Plans: 4800, PlansPerProc: 30, Wall: 45 * time.Second}
+	return runner.Budget{Plans: 8000, PlansPerProc: 30, Wall: 45 * time.Second}
 }
 
 func (c20) Describe() runner.Description {
